@@ -41,6 +41,11 @@ class RecBinary(object):
             raise TypeError("a bytes-like object is required, not 'str'")
         self.events.append(("write", data))
 
+    def writelines(self, lines):
+        # io.IOBase.writelines: one write() call per item, nothing atomic about it
+        for line in lines:
+            self.write(line)
+
     def flush(self):
         self.events.append(("flush",))
 
@@ -53,6 +58,11 @@ class RecText(object):
         if not isinstance(data, str):
             raise TypeError("write() argument must be str, not bytes")
         self.events.append(("write", data))
+
+    def writelines(self, lines):
+        # io.IOBase.writelines: one write() call per item, nothing atomic about it
+        for line in lines:
+            self.write(line)
 
     def flush(self):
         self.events.append(("flush",))
@@ -152,11 +162,20 @@ RICH = [
     ("date", lambda: date(2024, 2, 29), lambda: "2024-02-29"),
     ("time", lambda: dtime(23, 59, 59, 999999), lambda: "23:59:59.999999"),
     ("set", lambda: {7}, lambda: [7]),
+    ("set-mixed", lambda: {"a", 1}, lambda: ["a", 1]),
+    ("set-none", lambda: {None, 5}, lambda: [None, 5]),
+    ("set-empty", lambda: set(), lambda: []),
     ("complex", lambda: complex(1.5, -2.0), lambda: {"real": 1.5, "imag": -2.0}),
 ]
 
 
+class AnyOrder(list):
+    """Expected encoding of a set: the elements in any order."""
+
+
 def _same(a, b):
+    if isinstance(a, AnyOrder) or isinstance(b, AnyOrder):
+        return isinstance(a, list) and isinstance(b, list) and len(a) == len(b) and all(any(_same(x, y) for y in b) for x in a)
     if type(a) is not type(b):
         return False
     if isinstance(a, float):
@@ -193,6 +212,8 @@ def body_E1(ctx):
         name, mk, exp = RICH[which - len(CORNERS)]
         v = mk()
         expected = exp()
+        if name.startswith("set"):
+            expected = AnyOrder(expected)
     else:
         name = "custom-json_default"
 
@@ -234,7 +255,7 @@ def body_E1(ctx):
     ctx.check(isinstance(decoded, dict), "line does not decode to an object")
     ctx.check(_same(decoded, exp_message), "decoded line differs from the logged message for %s depth %d: %r", name, depth, decoded if depth < 4 else "...")
     ctx.check(t.getvalue() == raw.decode("utf-8"), "text-mode and binary-mode files differ for %s", name)
-    if custom or name in ("path", "set", "complex"):
+    if custom or name in ("path", "set", "set-mixed", "set-none", "set-empty", "complex"):
         ctx.check(len(calls) >= 1, "json_default was not consulted for %s", name)
     elif which < len(CORNERS):
         ctx.check(calls == [], "json_default was consulted for the JSON-native value %s: %r", name, calls)
@@ -276,6 +297,6 @@ OBLIGATIONS = [
         shards={"quick": [{"deep": 50}], "thorough": [{"deep": 50}, {"deep": 200}]},
         twin=[{"deep": 50, "twin_label": "rich-nested"}],
         timeout={"quick": 100, "thorough": 300},
-        bounds={"quick": "22 JSON-native corner classes + 5 rich types + custom json_default, nesting depth {0,1,3,50} in lists or dicts, binary and text files - witnesses per class, not a for-all claim"},
+        bounds={"quick": "22 JSON-native corner classes + 8 rich values (path, date, time, 4 sets, complex) + custom json_default, nesting depth {0,1,3,50} in lists or dicts, binary and text files - witnesses per class, not a for-all claim"},
     ),
 ]
